@@ -124,8 +124,9 @@ async fn server(net: Net, seed: u64, v6net: bool, read_only: bool, nq: u64, fat:
     net.log(json!({"ev":"Universe","nodes":oracle.lock().unwrap().universe_json()}));
     net.add_scripted(&addrs, Box::new(oracle.clone()));
     let me: SocketAddr = if v6net { v6(9000, 7000) } else { v4(10, 0, 0, 1, 7000) };
+    // one of the universe's nodes (close to the own id, hence named in many answers) is configured as a router
     let dht = start_node(&net, &NodeCfg { addr: me, id: Some(my_id), read_only, announce_port: None,
-                                          nodes: addrs[..4].to_vec(), routers: vec![] });
+                                          nodes: addrs[..4].to_vec(), routers: vec![addrs[4].to_string()] });
     if tokio::time::timeout(std::time::Duration::from_secs(1200), wait_bootstrapped(&net, &dht, me, 1)).await.is_err() {
         net.log(json!({"ev":"End"}));
         return;
